@@ -11,6 +11,7 @@ from .common import NCPU, Report, ToolError, build_harness, build_hpbf_bin, log,
 
 FILES = {"file:A": ("fA", ",.+."), "file:B": ("fB", "++[>+++<-]>."), "file:U": ("fU", "+[.")}
 TEXT = {"code:a": "+++.", "code:b": ",+.", "code:c": ">,[.,]", "code:u": "+[.", "code:d": "++.[>+<]", "missing": "nope",
+        "code:w": "+" * 300 + ".",          # its optimised IR / bytecode depends on the cell width
         "junk": "abc",
         "num:0": "0", "num:3": "3", "num:100000": "100000"}
 OPTIONS = ["-i8", "-i16", "-i32", "-i64", "-O0", "-O1", "-O2", "-O3", "-O4", "-O5", "--inplace", "--ir-int",
@@ -89,6 +90,15 @@ def c16(tier):
     # longer vectors over a reduced alphabet (exhaustive to length 3 / 4)
     small = ["-i16", "-O3", "--bc-int", "--print-ir", "--limit", "-f", "num:3", "junk", "file:A", "file:U", "missing",
              "code:b", "code:u", "--static", "-h"]
+    # print options x widths x levels on a fragment whose rendering depends on width and level
+    prt = ["--print-ir", "--print-bc", "--print-jit-bc", "-i16", "-i32", "-i64", "-O0", "-O3", "code:w", "code:b"]
+    tp5 = os.path.join(d, "tokens-print.ndjson")
+    token_file(prt, tp5)
+    res = tlc.run_tlc("Cli", env={"GEN": 1, "MAXLEN": 3 if tier == "quick" else 4, "TOKENS": tp5, "CASES": "/dev/null"},
+                      workers=8, timeout=1800)
+    rep.add_tlc(res)
+    gen += [r for r in res.records if "argv" in r and len(r["argv"]) == (3 if tier == "quick" else 4)
+            and r["expected"]["prints"] == 1]
     if tier != "quick":
         small += ["-i64", "--inplace", "--print-jit-bc", "file:B", "code:c"]
     tp2 = os.path.join(d, "tokens-small.ndjson")
